@@ -60,7 +60,9 @@ def gen_doc(draw):
     elif kind == 'xsd-ns':
         i = draw(st.integers(2, 3)); text = head + draw(st.sampled_from(SBODIES)) % ('xmlns="urn:t" ' + XSI + ' xsi:schemaLocation="urn:t xsd%d.xsd"' % i)
     else:
-        text = head + draw(st.sampled_from(BODIES + ['<p:r xmlns:p="urn:p"><p:a p:k="1"/><a xmlns="urn:q"/></p:r>', '<r><![CDATA[x]]><!--c--><?pi d?></r>', '<r>&#0;</r>', '']))
+        # NEL and C0 character references behave differently in XML 1.0 and 1.1: a version left over from the previous document would show
+        text = head + draw(st.sampled_from(BODIES + ['<p:r xmlns:p="urn:p"><p:a p:k="1"/><a xmlns="urn:q"/></p:r>', '<r><![CDATA[x]]><!--c--><?pi d?></r>', '<r>&#0;</r>', '',
+                                                   '<r><a>x\u0085y\u2028z</a>\u0085<a k="p\u0085q"/></r>', '<r>&#1;<a>&#x7F;&#x85;</a></r>']))
     # prolog / epilog white space, comments and PIs: what a DOM parser keeps under the Document node depends on parser-level (not scanner-level) state
     if text and draw(st.integers(0, 2)) == 0:
         misc = draw(st.sampled_from(['\n', ' \n<!--pc-->\n', '\n<?pp d?>\n ', '<!--pc-->']))
